@@ -85,6 +85,45 @@ def run_forked(case, model, timeout=120):
     return res or dict(error="replay timed out / crashed", reproduced=False)
 
 
+def run_exact_forked(case, inputs, label, timeout=180):
+    """exact-arithmetic re-run of a float probe in a forked child (the parent's symbolic state is left alone)"""
+    import multiprocessing as mp
+    import signal
+    ctxm = mp.get_context("fork")
+    parent, child = ctxm.Pipe(duplex=False)
+
+    def body(conn):
+        try:
+            from symx import loader, engine
+            loader.install()
+            conn.send(engine.run_exact(case.fn, case.params, inputs, label))
+        except BaseException:      # noqa
+            try:
+                conn.send('unknown')
+            except Exception:
+                pass
+        finally:
+            conn.close()
+            os._exit(0)
+    p = ctxm.Process(target=body, args=(child,))
+    p.start()
+    child.close()
+    res = 'unknown'
+    if parent.poll(timeout):
+        try:
+            res = parent.recv()
+        except EOFError:
+            res = 'unknown'
+    if p.is_alive():
+        try:
+            os.kill(p.pid, signal.SIGKILL)
+        except OSError:
+            pass
+    p.join()
+    parent.close()
+    return res
+
+
 def cli(cid, path):
     job = json.load(open(path))
     out = run_job(job)
